@@ -77,18 +77,24 @@ package workerapi
 //@ func (*Server).Ack
 //@   requires s != nil
 //@   modifies *
+//@   ensures [C04:the_worker_is_told_success_only_if_the_store_settled_the_lease_or_it_is_a_remembered_duplicate] result1 == nil && !local(isBatch) && storeMutations == old(storeMutations) + 1 ==> lastStoreErr == nil
+//@   ensures [C04:a_lease_conflict_is_never_reported_as_success] !local(isBatch) && storeMutations == old(storeMutations) + 1 && lastStoreErr != nil ==> result1 != nil
 //@   calls AckSingle requires [C11:ack_only_after_authorize] authzPassed == old(authzPassed) + 1
 //@   calls AckBatch requires [C11:ackbatch_only_after_authorize] authzPassed == old(authzPassed) + 1
 
 //@ func (*Server).Nack
 //@   requires s != nil
 //@   modifies *
+//@   ensures [C04:the_worker_is_told_success_only_if_the_store_settled_the_lease_or_it_is_a_remembered_duplicate] result1 == nil && !local(isBatch) && storeMutations == old(storeMutations) + 1 ==> lastStoreErr == nil
+//@   ensures [C04:a_lease_conflict_is_never_reported_as_success] !local(isBatch) && storeMutations == old(storeMutations) + 1 && lastStoreErr != nil ==> result1 != nil
 //@   calls NackSingle requires [C11:nack_only_after_authorize] authzPassed == old(authzPassed) + 1
 //@   calls NackBatch requires [C11:nackbatch_only_after_authorize] authzPassed == old(authzPassed) + 1
 
 //@ func (*Server).Extend
 //@   requires s != nil
 //@   modifies *
+//@   ensures [C04:the_worker_is_told_success_only_if_the_store_settled_the_lease_or_it_is_a_remembered_duplicate] result1 == nil && storeMutations == old(storeMutations) + 1 ==> lastStoreErr == nil
+//@   ensures [C04:a_lease_conflict_is_never_reported_as_success] storeMutations == old(storeMutations) + 1 && lastStoreErr != nil ==> result1 != nil
 //@   calls Extend requires [C11:extend_only_after_authorize] authzPassed == old(authzPassed) + 1
 
 //@ func cloneStringMap
